@@ -13,7 +13,10 @@ macro_rules! cfg_rug {
 #[path = "/repo/mithril-stm/src/proof_system/concatenation/eligibility.rs"]
 mod elig;
 
+mod blsx;
+mod c01;
 mod c08;
+mod wire;
 mod fixtures;
 mod lottery_ref;
 
@@ -21,6 +24,7 @@ fn main() {
     let args = vcore::parse_args();
     let which = args.rest.first().cloned().unwrap_or_default();
     let code = match which.as_str() {
+        "C01" => c01::run(&args),
         "C08" => c08::run(&args),
         "C08-timing" => {
             c08::timing();
